@@ -26,7 +26,7 @@ MANIFEST = {
     "category": "exploration",
     "text": "Generated plans with 2-4 concurrently open keyed runs are interrupted at every loop handle; each run's "
             "documents are checked on their own and every event is attributed to its key through key-private detectors.",
-    "note": "6 generated key layouts x all coordinates x 4 kinds.",
+    "note": "Generated key layouts (incl. falsy run keys under an enclosing wrapper) uninterrupted and x all coordinates x 4 kinds.",
     "design_ref": "3 (C14)",
 }
 PLANS_Q = ["keys_a", "keys_b", "keys_dup", "keys_wrap", "nested", "keys_sparse", "keys_falsy"]
